@@ -94,8 +94,9 @@ def awaits_in(s, a, b):
             cls = "callback"
         elif EXTERNAL.search(tail):
             cls = "external"
-        elif re.search(r"\.(read|write|read_owned|write_owned)\(\)\s*\.await", tail[-40:]):
-            cls = "ctxlock"
+        elif re.search(r"\.(read|write|read_owned|write_owned)\(\)\s*\.await", tail[-40:]) or \
+                re.search(r"\bctx\w*\s*\.\s*(on_error|on_connect|on_finish|enqueue|to_string)\(", tail[-80:]):
+            cls = "ctxlock"      # the ContextRefOps methods take the connection's lock themselves
         elif re.search(r"\balive\s*\.\s*lock\(\)\s*\.await", tail[-60:]):
             cls = "lockAlive"
         elif re.search(r"\bterminated\s*\.\s*lock\(\)\s*\.await", tail[-60:]):
@@ -147,6 +148,13 @@ for path in FILES:
         if kind == "other":
             continue
         end = stmt_end(src, m.end())
+        # a temporary in the scrutinee of `if let` / `while let` / `match` lives to the end of that construct's block
+        st = max(src.rfind(";", 0, m.start()), src.rfind("{", 0, m.start()), src.rfind("}", 0, m.start()))
+        head = src[st + 1:m.start()].lstrip()
+        if re.match(r"(if\s+let|while\s+let|match)\b", head):
+            b = src.find("{", m.end())
+            if b >= 0:
+                end = block_end(src, b + 1)
         aw = awaits_in(src, m.end(), end)
         if aw:
             sites.append((rel, enclosing_fn(src, m.start()), kind, "temporary", aw))
